@@ -29,3 +29,26 @@ package handlers
 //@ func (e *External) Request(ctx *gin.Context)
 //@   requires nonnil: e != nil && ctx != nil && ctx.Request != nil && ctx.Writer != nil && e.Teamserver != nil && logr.LogrInstance != nil
 //@   modifies *
+
+// Listener objects: Start only touches the listener object itself (the server it
+// spawns runs concurrently). Assumed at this boundary (gin / net/http inside).
+//@ func NewConfigHttp() (h *HTTP)
+//@   ensures new: h != nil && fresh(h)
+//@ func NewPivotSmb() (s *SMB)
+//@   ensures new: s != nil && fresh(s)
+//@ func NewExternal(WebSocketEngine any, Config ExternalConfig) (e *External)
+//@   ensures new: e != nil && fresh(e) && e.Config.Name == Config.Name && e.Config.Endpoint == Config.Endpoint
+//@ func (h *HTTP) Start()
+//@   trusted
+//@   requires nonnil: h != nil
+//@   modifies h.Active, h.Server, h.GinEngine, h.TLS
+//@ func (s *SMB) Start()
+//@   trusted
+//@   requires nonnil: s != nil
+//@ func (e *External) Start()
+//@   trusted
+//@   requires nonnil: e != nil
+//@ func (h *HTTP) Stop() (err error)
+//@   trusted
+//@   requires nonnil: h != nil
+//@   modifies h.Active
